@@ -579,6 +579,11 @@ func (m *Manager) rotateWAL() error {
 		return fmt.Errorf("failed to create new WAL: %w", err)
 	}
 
+	// Continue the sequence numbering of the old WAL in the new one
+	if currentWAL != nil {
+		newWAL.UpdateNextSequence(currentWAL.GetNextSequence())
+	}
+
 	verifhook.At("sm.rotate.created")
 
 	// Store the old WAL for proper closure
